@@ -40,33 +40,61 @@ func (core *JApiCore) addMacro(d *directive.Directive) *jerr.JApiError {
 	}
 
 	core.macro[name] = d
+	core.macroNames = append(core.macroNames, name)
 
 	return nil
 }
 
+// checkMacroForRecursion rejects every macro which reaches itself through any
+// chain of PASTE directives. Macros are visited in the order of definition, so
+// the reported error does not depend on the map iteration order.
 func (core *JApiCore) checkMacroForRecursion() *jerr.JApiError {
-	for macroName, macro := range core.macro {
-		if je := findPaste(macroName, macro); je != nil {
+	state := make(map[string]macroCheckState, len(core.macro))
+	for _, macroName := range core.macroNames {
+		if je := core.checkMacro(macroName, state); je != nil {
 			return je
 		}
 	}
 	return nil
 }
 
-func findPaste(macroName string, d *directive.Directive) *jerr.JApiError {
-	if d.Type() == directive.Paste {
-		switch d.NamedParameter("Name") {
-		case "":
-			return d.KeywordError(fmt.Sprintf("%s (%s)", jerr.RequiredParameterNotSpecified, "Name"))
+type macroCheckState uint8
 
-		case macroName:
+const (
+	macroIsBeingChecked macroCheckState = iota + 1
+	macroIsChecked
+)
+
+func (core *JApiCore) checkMacro(macroName string, state map[string]macroCheckState) *jerr.JApiError {
+	if state[macroName] == macroIsChecked {
+		return nil
+	}
+	state[macroName] = macroIsBeingChecked
+	if je := core.findPaste(core.macro[macroName], state); je != nil {
+		return je
+	}
+	state[macroName] = macroIsChecked
+	return nil
+}
+
+func (core *JApiCore) findPaste(d *directive.Directive, state map[string]macroCheckState) *jerr.JApiError {
+	if d.Type() == directive.Paste {
+		name := d.NamedParameter("Name")
+		if name == "" {
+			return d.KeywordError(fmt.Sprintf("%s (%s)", jerr.RequiredParameterNotSpecified, "Name"))
+		}
+		if state[name] == macroIsBeingChecked {
 			return d.KeywordError(jerr.RecursionIsProhibited)
 		}
-	} else if d.Children != nil {
-		for _, c := range d.Children {
-			if je := findPaste(macroName, c); je != nil {
-				return je
-			}
+		if _, ok := core.macro[name]; !ok {
+			return nil // an undefined macro is reported when the PASTE is expanded
+		}
+		return core.checkMacro(name, state)
+	}
+
+	for _, c := range d.Children {
+		if je := core.findPaste(c, state); je != nil {
+			return je
 		}
 	}
 	return nil
